@@ -5,7 +5,7 @@ from .. import core, values
 
 ID = 'C15'
 LEVEL = 'exploration'
-RULE = ('case = history of operations on a fresh class lattice per case (chain A<-B<-C, D(B, B2) with an unrelated second base, '
+RULE = ('position family: a subclass of object / str / bytes / int / float / tuple / frozenset with a printer registered for it (by class, by name, or for its parent) prints through that printer at every position - top level, list / tuple / set / frozenset element, dict value, dict key (with and without sort_dict_keys), key and value of a nested dict, positional / keyword argument of a call. History family: case = history of operations on a fresh class lattice per case (chain A<-B<-C, D(B, B2) with an unrelated second base, '
         'E(A) and the true diamond F(B, E), unrelated U; '
         'unique module names): register by class, register by qualified-name string, register predicate accepting a '
         'subset of the classes (with a new printer, the same printer function under a second predicate, or the same predicate object with another printer), print an instance, is_registered with each of the 6 legal flag combinations and the '
@@ -72,7 +72,62 @@ def _enumerate(tier, names):
             yield {'ops': [list(o) for o in hist]}
 
 
+POS_BASES = ['object', 'str', 'bytes', 'int', 'float', 'tuple', 'frozenset']
+POS_VIA = ['class', 'name', 'parent']
+POSITIONS = ['top', 'list', 'tuple', 'dictvalue', 'dictkey', 'dictkey-sorted', 'set', 'frozenset', 'nested-key', 'callarg', 'callkw']
+
+
+def position_cases():
+    # the printer registered for the nearest class is used wherever the value stands (dict keys, set elements included)
+    for base in POS_BASES:
+        for via in POS_VIA:
+            for pos in POSITIONS:
+                yield {'position': pos, 'base': base, 'via': via}
+
+
+def oracle_position(case):
+    import builtins
+    from prettyprinter import register_pretty, pretty_call
+    i = next(_uid)
+    mod = 'ppvpos%d' % i
+    base = getattr(builtins, case['base'])
+    ns = {'__module__': mod}
+    if case['base'] != 'object':
+        ns['__hash__'] = base.__hash__
+    parent = type('Parent', (base,), dict(ns, __qualname__='Parent'))
+    cls = type('Child', (parent,), dict(ns, __qualname__='Child')) if case['via'] == 'parent' else parent
+    tag = 'TAG%d' % i
+    fn = (lambda v, ctx: tag)
+    if case['via'] == 'name':
+        register_pretty('%s.%s' % (mod, 'Parent'))(fn)
+    else:
+        register_pretty(parent)(fn)
+    arg = {'object': (), 'str': ('key',), 'bytes': (b'key',), 'int': (7,), 'float': (2.5,), 'tuple': ((1, 2),), 'frozenset': ((1,),)}[case['base']]
+    inst = cls(*arg)
+
+    class Box:
+        pass
+    Box.__module__ = mod
+    Box.__qualname__ = 'Box'
+    pos = case['position']
+    register_pretty(Box)(lambda v, ctx: pretty_call(ctx, 'Box', inst) if pos == 'callarg' else pretty_call(ctx, 'Box', kw=inst))
+    value, expected = {
+        'top': (inst, tag), 'list': ([inst], '[%s]' % tag), 'tuple': ((inst,), '(%s,)' % tag), 'dictvalue': ({1: inst}, '{1: %s}' % tag),
+        'dictkey': ({inst: 1}, '{%s: 1}' % tag), 'dictkey-sorted': ({inst: 1}, '{%s: 1}' % tag), 'set': ({inst}, '{%s}' % tag),
+        'frozenset': (frozenset([inst]), 'frozenset({%s})' % tag), 'nested-key': ([{inst: [inst]}], '[{%s: [%s]}]' % (tag, tag)),
+        'callarg': (Box(), 'Box(%s)' % tag), 'callkw': (Box(), 'Box(kw=%s)' % tag)}[pos]
+    p = values.pp(value, sort_dict_keys=(pos == 'dictkey-sorted'))
+    if p.exc is not None:
+        return core.viol('print-raised', '%r for a %s subclass instance at %s' % (p.exc, case['base'], pos))
+    if p.text != expected and not (pos == 'frozenset' and p.text == 'frozenset([%s])' % tag):
+        return core.viol('wrong-printer', 'a %s subclass instance (printer registered via %s) at position %s printed as %r, expected %r' % (
+            case['base'], case['via'], pos, p.text, expected))
+    return core.ok(pos != 'top', ['position', 'position:' + pos, 'position-base:' + case['base']])
+
+
 def fixed_cases():
+    for c in position_cases():
+        yield c
     yield {'ops': [['regn', 'A'], ['print', 'A'], ['regn', 'A'], ['print', 'A']]}     # D20
     yield {'ops': [['regc', 'A'], ['regn', 'A'], ['print', 'A']]}
     yield {'ops': [['regn', 'A'], ['regc', 'A'], ['print', 'A'], ['print', 'C']]}
@@ -124,6 +179,8 @@ def strategy(tier):
 
 
 def oracle(case):
+    if 'position' in case:
+        return oracle_position(case)
     import prettyprinter.prettyprinter as P
     from prettyprinter import register_pretty, is_registered
     mod, L = lattice()
